@@ -155,7 +155,7 @@ def step (_ : Unit) (ts : List String) : Unit × String :=
           let frag := match q with
             | some cq =>
               -- either join order of a hop is a statement of the model (`trVariant` takes the direction choice as a parameter)
-              let cands := fun (fast : Bool) => [C02.trVariant (fun _ => false) (fun _ => false) fast km cq, C02.trVariant (fun _ => true) (fun _ => true) fast km cq].filterMap id
+              let cands := fun (fast : Bool) => [C02.trVariant (fun _ => false) (fun _ => false) (fun _ => false) fast km cq, C02.trVariant (fun _ => true) (fun _ => true) (fun _ => true) fast km cq].filterMap id
               match cands true, cands false with
               | [], _ => ""
               | _, [] => ""
